@@ -7,7 +7,7 @@ import random
 
 from .. import common
 from .. import gen_text as gt
-from ..textrun import load, minimise_layout, gap_feature
+from ..textrun import load, minimise_layout, gap_feature, interfere
 
 CHECK = "C03"
 RULE = (
@@ -17,7 +17,10 @@ RULE = (
     "based ints in every permitted radix/sign position, reals in 8 forms, "
     "both quote kinds, unquoted strings, keywords in any case, dates/times, "
     "nested sets/sequences, units) under a random layout; x 5 parser "
-    "configurations. distinct = (reader, document seed); non-trivial = all. "
+    "configurations; a quarter of the loads are preceded by a load of the same "
+    "text through a differently configured parser (Decimal / Fraction reals "
+    "and another quantity class, caller's container classes, another "
+    "dialect). distinct = (reader, document seed); non-trivial = all. "
     "coverage.matrix counts (spelling class x context x reader) cells"
 )
 
@@ -89,6 +92,15 @@ def case(rec, pvl, reader, key):
     doc = gt.gen_document(rng, reader)
     seps = gt.gen_layout(rng, doc.tokens, reader, "wild")
     text = gt.render(doc.tokens, seps)
+    how = None
+    if rng.random() < 0.25:
+        # the same text first goes through a differently configured parser;
+        # the judged load below must not notice
+        try:
+            how = interfere(pvl, reader, text, rng)
+            rec.count(f"preceded_by_other_configuration[{how}]")
+        except common.CaseTimeout:
+            pass
     st, res = load(pvl, reader, text)
     for cls, ctx in doc.meta:
         rec.count(f"matrix[{reader}][{cls}][{ctx}]")
@@ -112,8 +124,13 @@ def case(rec, pvl, reader, key):
         msg = f"{st}: {res}"[:300]
     for kind, feats, extra in classify_failure(
             pvl, reader, doc, seps, gt.plain_layout(doc.tokens), outcome):
-        wit = {"reader": reader, "seed": key, "text": text[:1500]}
+        wit = {"reader": reader, "seed": key, "text": text[:1500],
+               "preceded_by_load_with": how}
         wit.update(extra)
+        if how is not None:
+            # does the text load correctly in a process that never saw the
+            # other configuration?  (classify_failure ran in this process)
+            feats = dict(feats, after_other_configuration=how)
         rec.violation(CHECK, reader, kind, feats, wit, msg)
 
 
@@ -133,6 +150,8 @@ def finish_kwargs(rec, tier):
         reader, cls, ctx = k[len("matrix["):-1].split("][")
         matrix.setdefault(reader, {}).setdefault(cls, {})[ctx] = v
     req = [f"agree[{r}]" for r in gt.READERS]
+    req += ["preceded_by_other_configuration[decimal]",
+            "preceded_by_other_configuration[other-dialect]"]
     return dict(extra_cov={"matrix_cells_hit": len(cells), "matrix": matrix},
                 required_counters=req,
                 assumptions=["expected values per the Blue Book / ODL BNF as "
